@@ -36,6 +36,9 @@ const (
 type TRsp struct {
 	RspTo uint64 `json:"rspto"`
 	PAddr uint64 `json:"paddr"`
+	// the rest of the page the reply carries (not read by the translator, not in the model)
+	PID   uint64 `json:"pid"`
+	VAddr uint64 `json:"vaddr"`
 }
 
 type TReq struct {
@@ -44,6 +47,8 @@ type TReq struct {
 	VAddr uint64 `json:"vaddr"`
 	PID   uint64 `json:"pid"`
 	Dev   uint64 `json:"dev"`
+	// the physical page the translation service found when it took the lookup
+	PAddr uint64 `json:"-"`
 }
 
 func (q TReq) Coq() string {
@@ -275,7 +280,8 @@ func (r *runner) apply(e *Event) (crashed bool) {
 		// fields of the page other than PAddr are not read by the translator
 		rsp := vm.TranslationRspBuilder{}.WithSrc(tlbPort(0)).WithDst(r.tr.AsRemote()).
 			WithRspTo(r.goTrID(e.TRsp.RspTo)).
-			WithPage(vm.Page{PAddr: e.TRsp.PAddr, Valid: true, PID: 77, VAddr: 0xdead000, PageSize: 1}).Build()
+			WithPage(vm.Page{PAddr: e.TRsp.PAddr, Valid: true, PID: vm.PID(e.TRsp.PID), VAddr: e.TRsp.VAddr,
+				PageSize: 4096}).Build()
 		e.Acc = bp(r.tr.Deliver(rsp) == nil)
 	case "tick":
 		e.Blocked = !r.bot.CanSend() && r.tr.PeekIncoming() != nil
@@ -354,6 +360,17 @@ type gen struct {
 	doneBot []outBot
 	crashed bool
 	lastCtl uint64 // flags of the last accepted control message (0 = none yet)
+	remap   uint64 // generation of the page table: every accepted restart remaps all pages
+}
+
+// table is the page table of the environment at this moment.
+func (g *gen) table(pid, vpage uint64) uint64 {
+	k := g.c.Cfg.Log2PS
+	return oracle(pid, vpage, k) + (g.remap*100003)<<k
+}
+
+func (g *gen) reply(q TReq) *TRsp {
+	return &TRsp{RspTo: q.ID, PAddr: q.PAddr, PID: q.PID, VAddr: q.VAddr}
 }
 
 func (g *gen) do(e Event) *Event {
@@ -370,10 +387,15 @@ func (g *gen) do(e Event) *Event {
 	switch {
 	case e.E == "dc" && acc && e.Msg.Kind == "KCtrl":
 		g.lastCtl = e.Msg.Flags
+		if e.Msg.Flags&vh.FDiscard == 0 && e.Msg.Flags&vh.FRestart != 0 {
+			g.remap++ // the pages are remapped while the translator restarts
+		}
 	case e.E == "rb" && e.Got != nil:
 		g.pendBot = append(g.pendBot, outBot{id: e.Got.ID, read: e.Got.Kind == "KRead", addr: e.Got.Addr, size: int(e.Got.Size)})
 	case e.E == "rx" && e.GotQ != nil:
-		g.pendTr = append(g.pendTr, *e.GotQ)
+		q := *e.GotQ
+		q.PAddr = g.table(q.PID, q.VAddr) // answers are created from the table as it is now
+		g.pendTr = append(g.pendTr, q)
 	case e.E == "dx" && acc:
 		for j, q := range g.pendTr {
 			if q.ID == e.TRsp.RspTo {
@@ -491,7 +513,13 @@ func generate(rng *vh.Rng, hostile bool) Case {
 				if len(g.doneTr) > 0 && rng.Bool() {
 					q = g.doneTr[rng.Intn(len(g.doneTr))] // duplicate reply
 				} else {
-					q = TReq{ID: 888000 + uint64(rng.Intn(5)), VAddr: pages[0], PID: 1} // never issued
+					// never issued; it names the page of a pending lookup if there is one
+					q = TReq{ID: 888000 + uint64(rng.Intn(5)), VAddr: pages[0], PID: 1}
+					if len(g.pendTr) > 0 {
+						o := g.pendTr[rng.Intn(len(g.pendTr))]
+						q.VAddr, q.PID = o.VAddr, o.PID
+					}
+					q.PAddr = (rng.U64() >> 24 << k) | 1<<40
 				}
 			} else if len(g.pendTr) > 0 {
 				q = g.pendTr[rng.Intn(len(g.pendTr))]
@@ -499,11 +527,11 @@ func generate(rng *vh.Rng, hostile bool) Case {
 				g.do(Event{E: "tick"})
 				continue
 			}
-			pa := oracle(q.PID, q.VAddr, k)
+			rp := g.reply(q)
 			if hostile && rng.Intn(5) == 0 {
-				pa = rng.U64() | 0xffffffff00000000 // unaligned, close to the top of the address space
+				rp.PAddr = rng.U64() | 0xffffffff00000000 // unaligned, close to the top of the address space
 			}
-			g.do(Event{E: "dx", TRsp: &TRsp{RspTo: q.ID, PAddr: pa}})
+			g.do(Event{E: "dx", TRsp: rp})
 		case 2: // a response of memory, any outstanding request
 			var o outBot
 			if hostile && rng.Intn(4) == 0 && (len(g.doneBot) > 0 || rng.Bool()) {
@@ -572,6 +600,24 @@ func generate(rng *vh.Rng, hostile bool) Case {
 			default:
 				g.do(Event{E: "tick"})
 			}
+		}
+	}
+	if !hostile && !g.crashed && rng.Intn(4) == 0 {
+		// a flush that catches a lookup in flight: the access is accepted, its lookup is taken by the
+		// translation service but not answered, then the discard arrives.  finish() restarts (the pages
+		// are remapped), touches the page again and delivers the stale answer before the fresh one.
+		m := vh.Msg{ID: nextTop, Kind: "KRead", Src: 10, Dst: pTop, Addr: pages[rng.Intn(npages)] + 16, Size: 4,
+			PID: uint64(1 + rng.Intn(npids)), RspTo: nextTop}
+		nextTop++
+		g.do(Event{E: "dt", Msg: &m})
+		for i := 0; i < 3 && !g.crashed; i++ {
+			g.do(Event{E: "tick"})
+			g.do(Event{E: "rx"})
+		}
+		if !g.crashed {
+			d := vh.Msg{ID: ctlID, Kind: "KCtrl", Src: 20, Dst: pCtl, Flags: vh.FDiscard}
+			ctlID++
+			g.do(Event{E: "dc", Msg: &d})
 		}
 	}
 	if !hostile && !g.crashed {
@@ -663,7 +709,6 @@ func (g *gen) finish() {
 // drain plays a fair environment until nothing moves any more: every lookup
 // and every memory request is answered, every port is emptied.
 func (g *gen) drain() {
-	k := g.c.Cfg.Log2PS
 	idle := 0
 	for round := 0; round < 400 && idle < 3 && !g.crashed; round++ {
 		moved := false
@@ -678,7 +723,7 @@ func (g *gen) drain() {
 		}
 		for len(g.pendTr) > 0 && !g.crashed {
 			q := g.pendTr[0]
-			e := g.do(Event{E: "dx", TRsp: &TRsp{RspTo: q.ID, PAddr: oracle(q.PID, q.VAddr, k)}})
+			e := g.do(Event{E: "dx", TRsp: g.reply(q)})
 			if e.Acc == nil || !*e.Acc {
 				break
 			}
